@@ -23,7 +23,10 @@ def gen_plan(rng):
         # nothing is ever waiting in the transport when it is closed
         'profile': {'p_sched': rng.choice([0, 30, 70, 95]),
                     'p_chunk': rng.choice([10, 50, 90]),
-                    'latency_ms': rng.choice([0, 0, 2, 40]), 'capacity': 0},
+                    'latency_ms': rng.choice([0, 0, 2, 40]), 'capacity': 0,
+                    # (a re-exchange that never ends shows as a run that
+                    # never gets quiet)
+                    'max_iterations': 8000},
         'pop': 'closing',
         'writer': rng.choice(['c', 's']),
         'chunks': [rng.choice([1, 10, 200, 3000, 20000, 70000])
